@@ -249,6 +249,85 @@ RetileOK(t) ==
 RetileKeepingStaleOK(t) ==
     \A par \in Parities : \A d \in Before(t, par) : \A U \in Regions(t) : DirShows(TileIntoKeepingStale(d, t, par, 2, U), t, par, 2, U)
 
+\* ---------------------------------------------------------------- object histories over image modes
+\* One tiling object may tile several images of its size, of any modes, one after the other.  tile_image makes the tile
+\* buffer from the mode of the image it is handed, so a stored pixel has that image's mode and value.  Abstract modes:
+\* a value set per mode; storing a value in a buffer of another mode keeps it only if that mode can represent it.
+ModeRange == [U8 |-> 0..3, I16 |-> -4..3, I32 |-> -16..15, F32 |-> {-16, -8, -4, -2, 0, 2, 4, 8, 16}, F64 |-> -16..16]
+ModeNames == DOMAIN ModeRange
+Stored(bufmode, v) == IF v \in ModeRange[bufmode] THEN <<bufmode, v>> ELSE <<bufmode, 9999>>      \* 9999: value changed
+BufferModeOf(history, mode) == mode                     \* as the code: from the image of THIS call
+StickyBufferModeOf(history, mode) == IF history = <<>> THEN mode ELSE history[1]     \* refuted variant: first call's buffer kept
+ModeHistoriesOK(BufMode(_, _)) ==
+    \A m1 \in ModeNames, m2 \in ModeNames, m3 \in ModeNames :
+       LET hist == <<m1, m2, m3>>
+       IN \A i \in 1..3 : \A v \in ModeRange[hist[i]] : Stored(BufMode(SubSeq(hist, 1, i - 1), hist[i]), v) = <<hist[i], v>>
+
+\* ---------------------------------------------------------------- sizes beyond TLC's 32-bit integers
+\* Image sizes of the form 2^k + d (d small) are handled symbolically: a number is kept as
+\*    [t |-> sequence of <<sign, exponent>> with exponent >= 8,  b |-> small integer]  =  SUM sign * 2^exponent + b
+\* so that every term is a multiple of TS = 256 and div / mod by TS act on b alone.  SymAgrees (below) makes TLC check
+\* that the symbolic geometry equals the concrete operators wherever the concrete ones fit into 32 bits; the tables
+\* for larger exponents are produced by the same operators.  (These operators assume TS = 256 = 2^8.)
+SInt(n) == [t |-> <<>>, b |-> n]
+SPow(x) == IF x >= 8 THEN [t |-> <<<<1, x>>>>, b |-> 0] ELSE SInt(2^x)
+SNeg(a) == [t |-> [i \in DOMAIN a.t |-> <<0 - a.t[i][1], a.t[i][2]>>], b |-> 0 - a.b]
+SAdd(a, b) == [t |-> a.t \o b.t, b |-> a.b + b.b]
+RECURSIVE SFold(_, _, _)
+\* shift every term down by `sh` bits; terms that drop below 2^8 are folded into the small part `acc`
+SFold(ts, sh, acc) ==
+    IF ts = <<>> THEN [t |-> <<>>, b |-> acc]
+    ELSE LET hd == Head(ts) x == hd[2] - sh rest == SFold(Tail(ts), sh, acc)
+         IN IF x >= 8 THEN [t |-> <<<<hd[1], x>>>> \o rest.t, b |-> rest.b]
+            ELSE [t |-> rest.t, b |-> rest.b + hd[1] * 2^x]
+SHalf(a) == SFold(a.t, 1, a.b \div 2)                    \* floor(a / 2); every term is even
+SDivTS(a) == SFold(a.t, 8, a.b \div TS)                  \* floor(a / 256)
+SModTS(a) == a.b % TS                                    \* a mod 256
+RECURSIVE SEvalT(_)
+SEvalT(ts) == IF ts = <<>> THEN 0 ELSE Head(ts)[1] * 2^(Head(ts)[2]) + SEvalT(Tail(ts))
+SEval(a) == SEvalT(a.t) + a.b                            \* only where it fits
+SSmall(a) == a.t = <<>>
+\* a size is <<k, d>> = 2^k + d
+SizeSym(sz) == SAdd(SPow(sz[1]), SInt(sz[2]))
+SizeExp(sz) == IF sz[1] < 8 \/ (sz[1] = 8 /\ sz[2] <= 0) THEN 8 ELSE IF sz[2] > 0 THEN sz[1] + 1 ELSE sz[1]    \* log2 NextP2
+SymP2Exp(w, h) == Max(SizeExp(w), SizeExp(h))
+\* everything about one axis of length sz inside a square of 2^e pixels
+SymAxis(e, sz) ==
+    LET n == SizeSym(sz)
+        g0 == SHalf(SAdd(SPow(e), SNeg(n)))
+        toff == SModTS(g0)
+        first == SDivTS(g0)
+        cnt == SAdd(SDivTS(SAdd(n, SInt(toff - 1))), SInt(1))
+        last == SAdd(first, SAdd(cnt, SInt(-1)))
+        lenlast == SModTS(SAdd(n, SInt(toff - 1))) + 1
+        one == SSmall(cnt) /\ cnt.b = 1
+        lenfirst == IF one THEN n ELSE SInt(TS - toff)
+        \* segments <<tile, in-tile offset, image offset, length>> of the first up-to-three tiles and of the last one
+        mid(j) == <<SAdd(first, SInt(j)), SInt(0), SInt(j * TS - toff), SInt(TS)>>
+        isLast(j) == SSmall(cnt) /\ cnt.b = j + 1
+        exists(j) == ~SSmall(cnt) \/ cnt.b > j
+        tail == IF one THEN <<first, SInt(toff), SInt(0), n>> ELSE <<last, SInt(0), SAdd(n, SInt(0 - lenlast)), SInt(lenlast)>>
+        seg(j) == IF j = 0 THEN <<first, SInt(toff), SInt(0), lenfirst>> ELSE IF isLast(j) THEN tail ELSE mid(j)
+        head == IF exists(2) THEN <<seg(0), seg(1), seg(2)>> ELSE IF exists(1) THEN <<seg(0), seg(1)>> ELSE <<seg(0)>>
+    IN [n |-> n, g0 |-> g0, first |-> first, cnt |-> cnt, last |-> last, head |-> head, tail |-> tail,
+        slot0 |-> <<first, toff>>, slotN |-> <<last, IF one THEN toff + SEval(n) - 1 ELSE lenlast - 1>>]
+SymTiling(w, h) == LET e == SymP2Exp(w, h) IN [e |-> e, lev |-> e - 8, x |-> SymAxis(e, w), y |-> SymAxis(e, h)]
+\* THEOREM (checked by TLC for every pair of sizes 2^k + d that fits): the symbolic geometry is the concrete one
+SEvalSeg(sg) == [tile |-> SEval(sg[1]), toff |-> SEval(sg[2]), ioff |-> SEval(sg[3]), len |-> SEval(sg[4])]
+SymAxisAgrees(sa, a) ==
+    /\ SEval(sa.n) = a.len /\ SEval(sa.g0) = a.g0 /\ SEval(sa.first) = FirstTile(a) /\ SEval(sa.last) = LastTile(a)
+    /\ SEval(sa.cnt) = AxisCount(a)
+    /\ Len(sa.head) = Min(3, AxisCount(a))
+    /\ \A j \in 1..Len(sa.head) : SEvalSeg(sa.head[j]) = Seg(a, FirstTile(a) + j - 1)
+    /\ SEvalSeg(sa.tail) = Seg(a, LastTile(a))
+    /\ <<SEval(sa.slot0[1]), sa.slot0[2]>> = AxisSlot(a, 0)
+    /\ <<SEval(sa.slotN[1]), sa.slotN[2]>> = AxisSlot(a, a.len - 1)
+SymAgrees(w, h) ==
+    LET st == SymTiling(w, h)
+        t == Tiling(2^w[1] + w[2], 2^h[1] + h[2])
+    IN /\ 2^st.e = t.p2 /\ st.lev = t.lev
+       /\ SymAxisAgrees(st.x, t.x) /\ SymAxisAgrees(st.y, t.y)
+
 \* ================================================================ state machines (give TLC the bounded space)
 \* A behaviour picks a size ("pick", nothing computed yet), builds the tiling of the full image ("full",
 \* StudyTiling.__init__), derives any sub-image tiling of it ("sub", compute_for_subimage), returns to the
